@@ -171,6 +171,27 @@ func Run(s *simrt.Sim, a *harness.Args, r *harness.Result) {
 	var recs map[string]string
 	var berr error
 	// key generation touches the real file system and real CPU only
+	if algo == "ed25519" {
+		// cheap to generate: every run starts from an empty key directory, so
+		// that a run never depends on what earlier runs of this process left
+		if d, ok := keyDirs[algo]; ok {
+			os.RemoveAll(d)
+			delete(keyDirs, algo)
+		}
+	}
+	if algo == "ed25519" && s.T.Choose(st, 8) == 0 {
+		// history: the administrator rotates the keys (removes the private
+		// key files; the next start generates new ones and must publish the
+		// matching records)
+		// (self-contained: an earlier start in this very run made the keys)
+		if _, _, err := newSigner(algo, hc, bc, domains); err != nil {
+			simrt.Harnessf("dkim signer init: %v", err)
+		}
+		for _, d := range domains {
+			os.Remove(filepath.Join(keyDirs[algo], d+"_sel.key"))
+		}
+		s.Stat("dkim_key_rotation")
+	}
 	signer, recs, berr = newSigner(algo, hc, bc, domains)
 	if berr != nil {
 		simrt.Harnessf("dkim signer init: %v", berr)
